@@ -88,7 +88,7 @@ def _emitted_halfword(case):
     """the 2-byte form the failing line was emitted as with -c, read from the problem text (None if it was not 2 bytes)"""
     import re
     msg = case.get('problem') or ''
-    m = re.search(r'with -c ([0-9a-f]+)\b', msg) or re.search(r'= ([0-9a-f]+): (?:encodes|loads)', msg)
+    m = re.search(r'with -c ([0-9a-f]+)\b', msg) or re.search(r'= ([0-9a-f]+): ', msg)
     if not m or len(m.group(1)) != 4:
         return None
     return int.from_bytes(bytes.fromhex(m.group(1)), 'little')
